@@ -32,12 +32,16 @@ func (m *Method) Full() string { return m.Pkg + "." + m.Class + "." + m.Name }
 
 type Class struct {
 	Pkg, Name string
+	Kind      string // Class | Interface (interfaces with default methods have bodies, hence calls) | "" (not recorded)
 	Methods   []*Method
 }
 
 type Model struct {
 	Classes []*Class
 	Shape   string // generator mode
+	// CaseTwins: full names of declared methods that nobody calls and that differ only in letter case from a
+	// called method of the same class (getUrl / getURL)
+	CaseTwins []string
 }
 
 func (m *Model) Methods() []*Method {
@@ -77,6 +81,9 @@ type Opts struct {
 	Quotes                         bool // allow names containing a double quote
 	Overloads                      bool // a class may declare the same method name twice (the reverse relation is name based)
 	DefaultPkg                     bool // some classes live in the default package (empty package name)
+	Kinds                          bool // classes are Class / Interface / unrecorded (otherwise all "Class")
+	CaseTwins                      bool // an uncalled method whose name differs only in case from a called one
+	OddRunes                       bool // names may contain identifier-ignorable format characters (U+200C, U+00AD) and non-ASCII letters
 }
 
 // Generate builds a model and returns it with a list of interesting roots/targets (present names first).
@@ -108,7 +115,11 @@ func Generate(r *run.Rand, o Opts) *Model {
 			cn = cn + "\"Q" // a quote in a class name (the quantifier names quotes; matters for DI replacement)
 		}
 		used[pk+"."+cn] = true
-		m.Classes = append(m.Classes, &Class{Pkg: pk, Name: cn})
+		kind := "Class"
+		if o.Kinds {
+			kind = r.Pick([]string{"Class", "Class", "Interface", "Interface", ""})
+		}
+		m.Classes = append(m.Classes, &Class{Pkg: pk, Name: cn, Kind: kind})
 	}
 	usedM := map[string]bool{}
 	var all []*Method
@@ -123,6 +134,10 @@ func Generate(r *run.Rand, o Opts) *Model {
 		}
 		if o.Quotes && r.Chance(1, 12) {
 			name = name + "\"q"
+		}
+		if o.OddRunes && r.Chance(1, 10) {
+			// legal in Java identifiers: zero-width non-joiner (Persian), soft hyphen, ordinary non-ASCII letters
+			name = name + r.Pick([]string{"\u200c", "\u00ad", "\u200d", "é", "名"}) + r.Pick(mWords)
 		}
 		if o.Overloads && len(c.Methods) > 0 && r.Chance(1, 6) {
 			name = c.Methods[r.Intn(len(c.Methods))].Name // an overload: same full name, its own call list
@@ -263,13 +278,69 @@ func Generate(r *run.Rand, o Opts) *Model {
 			me.Calls[i], me.Calls[j] = me.Calls[j], me.Calls[i]
 		}
 	}
+	if o.CaseTwins && r.Chance(1, 4) {
+		called := map[string]bool{}
+		for _, me := range all {
+			for _, c := range me.Calls {
+				if c.Class != "" && c.Name != "" {
+					called[c.Full()] = true
+				}
+			}
+		}
+		for _, k := range r.Perm(len(all)) {
+			t := all[k]
+			twin := caseTwin(t.Name)
+			if !called[t.Full()] || twin == t.Name || usedM[t.Pkg+"."+t.Class+"."+twin] {
+				continue
+			}
+			usedM[t.Pkg+"."+t.Class+"."+twin] = true
+			tw := &Method{Pkg: t.Pkg, Class: t.Class, Name: twin}
+			for _, c := range m.Classes {
+				if c.Pkg == t.Pkg && c.Name == t.Class {
+					c.Methods = append(c.Methods, tw)
+				}
+			}
+			for k := r.Intn(3); k > 0; k-- {
+				add(tw, ref(all[r.Intn(n)]))
+			}
+			m.CaseTwins = append(m.CaseTwins, tw.Full())
+			break
+		}
+	}
 	return m
+}
+
+// caseTwin changes the case of the last run of letters: getUrl -> getURL, saveLOAD -> saveload.
+func caseTwin(name string) string {
+	i := len(name)
+	for i > 0 && (name[i-1] >= 'a' && name[i-1] <= 'z' || name[i-1] >= 'A' && name[i-1] <= 'Z') {
+		i--
+	}
+	// keep the first letter of the name as it is
+	j := i
+	if j == 0 {
+		j = 1
+	}
+	for k := len(name) - 1; k > j; k-- {
+		if name[k] >= 'A' && name[k] <= 'Z' {
+			j = k
+			break
+		}
+	}
+	tail := name[j:]
+	if up := strings.ToUpper(tail); up != tail {
+		return name[:j] + up
+	}
+	return name[:j] + strings.ToLower(tail)
 }
 
 // PickRoot chooses a root/target: mostly a declared method (biased to the first, which the shaped modes
 // treat as the hub), sometimes a leaf, sometimes an absent name.
 func PickRoot(r *run.Rand, m *Model) string {
 	all := m.Methods()
+	if len(m.CaseTwins) > 0 && r.Bool() {
+		return m.CaseTwins[0]
+	}
 	switch r.Intn(10) {
 	case 0:
 		return "com.nowhere.Missing.method"
